@@ -69,8 +69,9 @@ theorem demo_driver_paths (path : Str) (config : Option Str) (x : Sid) :
 
 /-- the shipped path configurations follow the conventions the deterministic-parse theorems assume
     (per '/'-free stretch at most one free placeholder, prefix-free vocabularies to its left,
-    suffix-free ones to its right; '/'- and newline-free vocabularies; one-to-one, idempotent value
-    mappings; vocabulary defaults; unique labels) -/
+    suffix-free ones to its right; '/'- and newline-free vocabularies; idempotent value mappings whose
+    first word per sid value is acceptable (they are one-to-one here); acceptable defaults; unique
+    labels) -/
 theorem demo_path_wf_local : Spec.pathConfOk demoEnv demoPath_local = true := by decide +kernel
 theorem demo_path_wf_server : Spec.pathConfOk demoEnv demoPath_server = true := by decide +kernel
 
